@@ -365,6 +365,22 @@ class AstInfo:
                 )
                 if child_lineno not in self.module.no_cover_lines
             )
+            or self._in_only_cover_scope()
+        )
+
+    def _in_only_cover_scope(self) -> bool:
+        """Check if a scope that encloses self is in `only_cover_lines`.
+
+        Returns:
+            True if self is nested in a scope that should be the only one covered.
+        """
+        start, end = scope_line_range(self.ast)
+        return any(
+            scope_line_range(scope)[0] in self.module.only_cover_lines
+            for scope in nodes_of_class(self.module.module_ast, SCOPE_CLASSES)
+            if scope is not self.ast
+            and scope_line_range(scope)[0] <= start
+            and end <= scope_line_range(scope)[1]
         )
 
     @staticmethod
